@@ -121,6 +121,10 @@ func main() {
 		os.Exit(2)
 	}
 	name := os.Args[1]
+	if name == "concchild" {
+		concChildMain(os.Args[2:])
+		return
+	}
 	if name == "crashchild" {
 		crashChildMain(os.Args[2:])
 		return
